@@ -306,10 +306,73 @@ func exec(t []string) string {
 			return "err length"
 		}
 		return "ok"
+	case "wseq":
+		return execWseq(t)
 	case "rt": // rt <stack> <magic> <cmd> <payload>: a real message written over a net.Pipe and read back
 		return execRT(t[1], u32(t[2]), t[3], hx.UnHex(t[4]))
 	}
 	panic("harness: unknown op " + t[0])
+}
+
+// ---------------------------------------------------------------- block send path (the serialization cache of WriteMessage)
+
+// mkBlock builds a small DposBlock from its description "height:nonce:variant" (variant > 0 adds a confirm).
+func mkBlock(desc string) *types.DposBlock {
+	p := strings.Split(desc, ":")
+	if len(p) != 3 {
+		panic("harness: bad block description " + desc)
+	}
+	h, n, v := atoi(p[0]), atoi(p[1]), atoi(p[2])
+	b := &types.Block{Header: ctypes.Header{Version: 0, Height: uint32(h), Nonce: uint32(n), Timestamp: uint32(n) ^ 0x5a5a5a5a, Bits: uint32(h) * 7}}
+	d := &types.DposBlock{Block: b}
+	if v > 0 {
+		d.HaveConfirm = true
+		d.Confirm = &payload.Confirm{Proposal: payload.DPOSProposal{Sponsor: bytes.Repeat([]byte{byte(v)}, 33), BlockHash: b.Hash(), ViewOffset: uint32(v),
+			Sign: bytes.Repeat([]byte{byte(v + 1)}, 64)}}
+	}
+	return d
+}
+
+func freshBlockBytes(d *types.DposBlock) []byte {
+	buf := new(bytes.Buffer)
+	if err := d.Serialize(buf); err != nil {
+		panic("harness: cannot serialize block: " + err.Error())
+	}
+	return append([]byte(nil), buf.Bytes()...)
+}
+
+var lastWire []byte
+
+// wseq <magic> <i.j.k...> <n> <desc_0> <payload_0> ... : blocks sent one after the other through WriteMessage
+// (fresh send cache); the output is everything that went on the wire.
+func execWseq(t []string) string {
+	lastWire = nil
+	magic := u32(t[1])
+	n := atoi(t[3])
+	if len(t) != 4+2*n {
+		panic("harness: wseq arity")
+	}
+	var blocks []*types.DposBlock
+	for i := 0; i < n; i++ {
+		d := mkBlock(t[4+2*i])
+		if !bytes.Equal(freshBlockBytes(d), hx.UnHex(t[5+2*i])) {
+			return "payload-mismatch"
+		}
+		blocks = append(blocks, d)
+	}
+	p2p.VerifResetSendCache()
+	c := &memConn{r: bytes.NewReader(nil)}
+	for _, ix := range strings.Split(t[2], ".") {
+		// a new object every time, as the node deserializes / builds blocks anew; same content
+		d := mkBlock(t[4+2*atoi(ix)])
+		m := msg.NewBlock(d)
+		err := p2p.WriteMessage(c, magic, m, time.Second, func(p2p.Message) (*types.DposBlock, bool) { return d, true })
+		if err != nil {
+			return "err " + err.Error()
+		}
+	}
+	lastWire = append([]byte(nil), c.w.Bytes()...)
+	return hx.Hex(lastWire)
 }
 
 var lastRT struct {
@@ -479,6 +542,37 @@ func oracle(t []string, out string) *hx.Violation {
 			return &hx.Violation{Kind: "written-not-readable", Detail: fmt.Sprintf("%s message of %d payload bytes (MaxLength %d) written by WriteMessage is rejected by the reader: %s",
 				t[3], len(hx.UnHex(t[4])), mk().MaxLength(), lastRT.kind)}
 		}
+	case "wseq":
+		if out == "payload-mismatch" || strings.HasPrefix(out, "err") || out == "panic" {
+			if out == "panic" {
+				return &hx.Violation{Kind: "panic", Detail: "WriteMessage panicked on a block: " + hx.LastPanic()}
+			}
+			return nil
+		}
+		// what went on the wire must be, frame by frame, a header for and the bytes of a FRESH serialization of the block sent
+		wire := lastWire
+		for k, ix := range strings.Split(t[2], ".") {
+			want := freshBlockBytes(mkBlock(t[4+2*atoi(ix)]))
+			if len(wire) < 24 {
+				return &hx.Violation{Kind: "sent-wrong-bytes", Detail: fmt.Sprintf("send #%d: nothing more on the wire", k)}
+			}
+			l := int(binary.LittleEndian.Uint32(wire[16:20]))
+			if len(wire) < 24+l {
+				return &hx.Violation{Kind: "sent-wrong-bytes", Detail: fmt.Sprintf("send #%d: frame truncated", k)}
+			}
+			got := wire[24 : 24+l]
+			if !bytes.Equal(got, want) {
+				return &hx.Violation{Kind: "sent-wrong-bytes", Detail: fmt.Sprintf("send #%d of the sequence %s: block %s was handed to WriteMessage but the payload on the wire (length %d, checksum %x, self-consistent=%v) is not its serialization (length %d)",
+					k, t[2], t[4+2*atoi(ix)], l, wire[20:24], bytes.Equal(sha256d4(got), wire[20:24]), len(want))}
+			}
+			if !bytes.Equal(sha256d4(want), wire[20:24]) {
+				return &hx.Violation{Kind: "sent-wrong-bytes", Detail: fmt.Sprintf("send #%d: checksum is not that of the block sent", k)}
+			}
+			wire = wire[24+l:]
+		}
+		if len(wire) != 0 {
+			return &hx.Violation{Kind: "sent-wrong-bytes", Detail: "extra bytes on the wire"}
+		}
 	case "hdr":
 		f := strings.Fields(out)
 		if len(f) == 7 && f[6] != t[1] {
@@ -511,6 +605,8 @@ func bucket(t []string, out string) string {
 		if len(f) >= 2 {
 			return "rt/" + t[1] + "/" + f[0] + "/" + f[1]
 		}
+	case "wseq":
+		return fmt.Sprintf("wseq/len%d", len(strings.Split(t[2], ".")))
 	case "hdr", "build", "write", "wlimit":
 		if len(f) >= 1 && (f[0] == "ok" || f[0] == "err" || f[0] == "panic") {
 			return t[0] + "/" + f[0]
@@ -969,6 +1065,35 @@ func gen(g *hx.Gen) {
 			}
 		}
 	}
+	// 6. block send path: sequences over a few distinct blocks (A, B, A ...), with and without confirms, so that
+	//    the 2-entry serialization cache hits, misses and evicts
+	for i := 0; i < g.N(150, 1500); i++ {
+		n := 2 + r.Intn(3)
+		var descs []string
+		for j := 0; j < n; j++ {
+			descs = append(descs, fmt.Sprintf("%d:%d:%d", 1+r.Intn(1000), r.Intn(1<<30), r.Pick(0, 0, 1, 2)))
+		}
+		var seq []string
+		switch r.Intn(4) {
+		case 0:
+			seq = []string{"0", "1", "0"}
+		case 1:
+			seq = []string{"0", "1", "0", "1", "0"}
+		case 2:
+			seq = []string{"0", "0", "1", "1", "0"}
+		default:
+			for k := 0; k < 3+r.Intn(5); k++ {
+				seq = append(seq, strconv.Itoa(r.Intn(n)))
+			}
+		}
+		var sb strings.Builder
+		fmt.Fprintf(&sb, "wseq %d %s %d", magics[r.Intn(3)], strings.Join(seq, "."), n)
+		for _, d := range descs {
+			fmt.Fprintf(&sb, " %s %s", d, hx.Hex(freshBlockBytes(mkBlock(d))))
+		}
+		g.Emit("%s", sb.String())
+	}
+
 	ext := extremes(r)
 	for _, cmd := range sortedCmds("elanet") {
 		for _, m := range ext[cmd] {
